@@ -216,7 +216,7 @@ func (u *Unit) copyBuiltin(st *State, fr *Frame, in *ssa.Call, args []Val) Val {
 	what := u.srcAt(fr.fn, in.Pos(), "copy")
 	u.S.Push()
 	u.S.Assert(Gt(n, IntLit(0)))
-	void := u.S.CheckSat() == "unsat"
+	void := u.S.CheckSatT(u.Cfg.FeasMs) == "unsat"
 	u.S.Pop()
 	if void {
 		return n
@@ -447,6 +447,12 @@ func (u *Unit) useContract(st *State, fr *Frame, in *ssa.Call, fn *ssa.Function,
 		u.assume(t)
 	}
 	u.ctxBase = savedBase
+	// vacuity guard: a contract that is true of the body cannot make a
+	// feasible path infeasible
+	if u.S.CheckSatT(u.Cfg.FeasMs) == "unsat" {
+		u.Vacuous = append(u.Vacuous, fmt.Sprintf("postcondition of %s contradicts the path in %s", FuncName(fn), FuncName(fr.fn)))
+		u.limit("VACUOUS: postcondition of %s is contradictory at a call site in %s", FuncName(fn), FuncName(fr.fn))
+	}
 	k(st, res)
 }
 
